@@ -121,16 +121,23 @@ def run(tier, seed):
                 'MCStartB == [v \\in {"a","b"} |-> IF v = "a" THEN "mat" ELSE "real"]\n====\n')
     hists = []
     for start in ("MCStartA", "MCStartB"):
-        def cfg(name, maxops, invs):
+        def cfg(name, maxops, invs, classes=None):
             p = os.path.join(d, name)
+            cl = classes or CLASSES
             with open(p, "w") as f:
                 f.write("INIT Init\nNEXT Next\nCONSTANTS\n  Classes = {%s}\n  Admitted = {%s}\n  Start <- %s\n  MaxOps = %d\n%sCHECK_DEADLOCK FALSE\n"
-                        % (", ".join('"%s"' % c for c in CLASSES), ", ".join('"%s"' % c for c in ADMITTED), start, maxops,
+                        % (", ".join('"%s"' % c for c in cl), ", ".join('"%s"' % c for c in cl if c in ADMITTED), start, maxops,
                            "".join(f"INVARIANT {i}\n" for i in invs)))
             return p
         mod = os.path.join(d, "MCCache.tla")
-        r = run_tlc(mod, cfg("design.cfg", 4 if not thorough else 5, ["TopNeverStale"]), workers=16, timeout=3000)
-        ev.add_tlc(f"KgCache.tla ({start}) all histories to depth 4 (thorough 5), invariant TopNeverStale", r)
+        r = run_tlc(mod, cfg("design.cfg", 4, ["TopNeverStale"]), workers=16, timeout=3000)
+        ev.add_tlc(f"KgCache.tla ({start}) all histories to depth 4 over 9 value classes, invariant TopNeverStale", r)
+        if thorough:      # depth 5 over the classes that differ in admission and shape (the full product is ~10^9 states)
+            r5 = run_tlc(mod, cfg("design5.cfg", 5, ["TopNeverStale"], classes=["int", "ivec", "mat", "str"] if start == "MCStartA" else ["real", "rvec", "mat", "str"]),
+                         workers=16, timeout=6000)
+            ev.add_tlc(f"KgCache.tla ({start}) all histories to depth 5 over 4 value classes, invariant TopNeverStale", r5)
+            if r5.violated:
+                vd.violation({"what": f"design-level: KgCache.tla violates {r5.violated}", "counterexample": r5.cex[:4000], "part": "design"})
         if r.violated:
             vd.violation({"what": f"design-level: KgCache.tla violates {r.violated}", "counterexample": r.cex[:4000], "part": "design"})
         rn = run_tlc(mod, cfg("neg.cfg", 4, ["MemoNeverStale"]), workers=8, timeout=3000)
@@ -239,10 +246,21 @@ def run(tier, seed):
                 except BaseException as ex:   # noqa
                     got = {"t": "fail", "v": type(ex).__name__}
                 res.append((pos, cid, text, got))
+            # the same interpreter then evaluates the MIRROR of the expression (a and b exchanged): code compiled for one
+            # expression must not be served for another one of the same shape over the same variables
+            if uses_b:
+                mtext = kgeval.render_ast(subst(e, {"a": "b", "b": "a"}))
+                try:
+                    got = canon.canon(k(mtext))
+                    if got["t"] == "u":
+                        got = {"t": "fail", "v": "undefined"}
+                except BaseException as ex:   # noqa
+                    got = {"t": "fail", "v": type(ex).__name__}
+                res.append(("mirror", None, mtext, got))
             outs[mode] = res
         for (pos, cid, text, gc), (_, _, _, gi) in zip(outs["compiled"], outs["interpreted"]):
             nevals += 1
-            ok, exp = vals[cid]
+            ok, exp = vals[cid] if cid is not None else (False, None)
             same_ci = (gc["t"] == "fail" and gi["t"] == "fail") or canon.same(gc, gi)
             if ok:
                 in_domain += 1
